@@ -575,6 +575,17 @@ func calculateHashes(numLeaves uint64, delHashes []Hash, proof Proof) (hashAndPo
 			nextProvesIdx++
 		}
 
+		// The same position must not show up twice. It does when a target is given
+		// more than once or when a target is the ancestor of another target. Such a
+		// position would otherwise be mistaken for its own sibling.
+		nextIdx := nextLeastSlice(toProve.positions, nextProves.positions, toProveIdx, nextProvesIdx)
+		if (nextIdx == 0 && toProve.positions[toProveIdx] == provePos) ||
+			(nextIdx == 1 && nextProves.positions[nextProvesIdx] == provePos) {
+
+			return hashAndPos{}, nil, fmt.Errorf("invalid proof. Position %d is given "+
+				"or calculated more than once", provePos)
+		}
+
 		// Keep incrementing the row if the current position is greater
 		// than the max position on this row.
 		//
